@@ -19,7 +19,18 @@
 (***************************************************************************)
 EXTENDS Naturals, Sequences, FiniteSets, TLC
 
-CONSTANTS Rollback, NsProviderOrder, MaxBatch
+CONSTANTS Rollback, NsProviderOrder, MaxBatch,
+          MultiNsPrecheck,   \* "all-first": existence checked in EVERY
+                             \* namespace before the first write (the code);
+                             \* "interleaved": each namespace checked right
+                             \* before its own write
+          RollbackKinds,     \* "all": any exception restores the repository
+                             \* (the code: except Exception); "mof": only MOF /
+                             \* CIM / Value / Type errors do - an I/O error of
+                             \* an include does not
+          SchemaListRollback \* TRUE: one snapshot around the loop over the
+                             \* schema pragma files; FALSE: only each file's
+                             \* own compile is rolled back
 
 Ck(r) == [t |-> "check", r |-> r, i |-> 0]
 Wr(i) == [t |-> "write", r |-> "", i |-> i]
@@ -35,6 +46,18 @@ BatchSteps(n) ==
      IF Mod(j, 2) = 1 THEN Ck("prod" \o ToString((j + 1) \div 2))
      ELSE Wr(Mod((j \div 2) - 1, 4) + 1)]
 
+(* the same batch, but the k-th production is an include whose file may    *)
+(* be missing: an I/O error, not a MOF error                               *)
+BatchIoSteps(n) ==
+  [j \in 1..(2 * n) |->
+     IF Mod(j, 2) = 1 THEN Ck("io" \o ToString((j + 1) \div 2))
+     ELSE Wr(Mod((j \div 2) - 1, 4) + 1)]
+
+(* compile_schema_classes over two schema pragma files: per file           *)
+(* build_schema_mof (class listed in the file?) and a compile              *)
+SchemaSteps == <<Ck("file1-lacks-class"), Ck("file1-mof"), Wr(1),
+                 Ck("file2-lacks-class"), Ck("file2-mof"), Wr(2)>>
+
 Table ==
   [CreateClass |-> <<Ck("ns"), Ck("exists"), Ck("superclass"), Ck("resolve"),
                      Wr(1)>>,
@@ -46,9 +69,14 @@ Table ==
    DeleteQualifier |-> <<Ck("ns"), Ck("notfound"), Wr(4)>>,
    CreateInstance |-> <<Ck("ns"), Ck("class"), Ck("props"), Ck("key"),
                         Ck("exists"), Wr(2)>>,
-   CreateInstanceMultiNs |-> <<Ck("ns"), Ck("class"), Ck("props"),
-                               Ck("endpoint"), Ck("class2"), Ck("key"),
-                               Ck("exists"), Ck("exists2"), Wr(2), Wr(3)>>,
+   CreateInstanceMultiNs |->
+       IF MultiNsPrecheck = "all-first"
+       THEN <<Ck("ns"), Ck("class"), Ck("props"), Ck("endpoint"),
+              Ck("class2"), Ck("key"), Ck("exists"), Ck("exists2"),
+              Wr(2), Wr(3)>>
+       ELSE <<Ck("ns"), Ck("class"), Ck("props"), Ck("endpoint"),
+              Ck("class2"), Ck("key"), Ck("exists2"), Wr(3), Ck("exists"),
+              Wr(2)>>,
    ModifyInstance |-> <<Ck("ns"), Ck("class"), Ck("notfound"), Ck("plist"),
                         Ck("props"), Ck("keychange"), Wr(2)>>,
    ModifyInstanceMultiNs |-> <<Ck("ns"), Ck("class"), Ck("notfound"),
@@ -67,8 +95,21 @@ Table ==
               Ck("key"), Ck("exists"), Wr(4), Wr(2)>>]
 
 OpNames == DOMAIN Table
-Steps(op) == IF op \in OpNames THEN Table[op] ELSE BatchSteps(MaxBatch)
-AllOps == OpNames \cup {"batch"}
+Steps(op) == IF op \in OpNames THEN Table[op]
+             ELSE IF op = "batchio" THEN BatchIoSteps(MaxBatch)
+             ELSE IF op = "schemalist" THEN SchemaSteps
+             ELSE BatchSteps(MaxBatch)
+AllOps == OpNames \cup {"batch", "batchio", "schemalist"}
+
+(* does the failing check x of operation op restore the snapshot? *)
+Restores(op, x, pc) ==
+  CASE op = "batch" -> Rollback
+    [] op = "batchio" -> Rollback /\ RollbackKinds = "all"
+    [] op = "schemalist" ->
+         \* each compile_mof_string restores what IT wrote (nothing yet at a
+         \* check); only the outer snapshot undoes the earlier files
+         Rollback /\ (SchemaListRollback \/ pc <= 3)
+    [] OTHER -> FALSE
 Reasons(op) == {Steps(op)[j].r : j \in {x \in DOMAIN Steps(op) :
                                          Steps(op)[x].t = "check"}}
 
@@ -98,7 +139,7 @@ Step == /\ ~call.done
                 THEN IF x.r \in call.scen
                      THEN \* the call raises here
                           /\ call' = [call EXCEPT !.raised = TRUE, !.done = TRUE]
-                          /\ repo' = IF call.op = "batch" /\ Rollback
+                          /\ repo' = IF Restores(call.op, x, call.pc)
                                      THEN call.snap ELSE repo
                      ELSE call' = [call EXCEPT !.pc = @ + 1] /\ UNCHANGED repo
                 ELSE /\ repo' = [repo EXCEPT ![x.i] = Mod(@ + 1, 3)]
